@@ -115,7 +115,7 @@ func main() {
 		SolverArgv: []string{"z3-new", "-in"}, SolverName: "z3 5.1.0 (second opinion on unknown: z3 4.8.12)", SolverTimeoutMs: timeout, BranchTimeoutMs: 400,
 		SecondSolverArgv: []string{"z3", "-in"},
 		InitPkgs:         map[string]bool{"strconv": true, "unicode/utf8": true, "math": true, "math/bits": true, "unicode": true, "sort": true, "bytes": true, "io": true},
-		LenientPkgs:      map[string]bool{"time": true, "errors": true, "github.com/invopop/validation": true, "github.com/invopop/validation/is": true},
+		LenientPkgs:      map[string]bool{"time": true, "errors": true, "github.com/invopop/validation": true, "github.com/invopop/validation/is": true, "github.com/google/uuid": true},
 		Trace:            *trace, SessionPaths: 150, LogDir: *logdir, Thorough: thorough,
 	}
 	eng.OpaqueAlways = map[string]string{
